@@ -18,6 +18,8 @@ import random
 from .. import gen, harness, oracles
 from ..world import SimWorld
 
+EVAL_COUNTER = "crash_points"
+EVAL_UNIT = "one crash point (prefix) of one produced trace, each delivered in ~20 orders"
 LEVEL = "fault_enumeration"
 RULE = ("seeded traces from real runs (single runs and CLI run-space launches incl. a failing run/node); crash point "
         "enumerated after every emitted line (all prefixes); per prefix: emission order, 6-12 seeded permutations, "
